@@ -2,8 +2,7 @@ package rules
 
 import (
 	"fmt"
-	"go/ast"
-	"go/token"
+		"go/token"
 	"go/types"
 	"sort"
 	"strconv"
@@ -83,43 +82,23 @@ func valueTypes(c *core.Ctx) []valueType {
 	return out
 }
 
-// newValueTable extracts NewValue's dispatch table: signature -> constructor.
+// newValueTable extracts NewValue's dispatch: signature -> constructor (a map
+// literal or a switch over the signature, in NewValue or in a helper or
+// package-level table it uses).
 func newValueTable(c *core.Ctx) (map[string]*ssa.Function, token.Pos) {
 	p := c.Pkg("type/value")
 	out := map[string]*ssa.Function{}
 	var pos token.Pos
-	if p == nil {
+	fd := funcDecl(p, "", "NewValue")
+	if fd == nil {
 		return out, pos
 	}
-	for _, f := range p.Syntax {
-		for _, d := range f.Decls {
-			fd, ok := d.(*ast.FuncDecl)
-			if !ok || fd.Name.Name != "NewValue" || fd.Body == nil {
-				continue
-			}
-			pos = fd.Pos()
-			ast.Inspect(fd.Body, func(n ast.Node) bool {
-				cl, ok := n.(*ast.CompositeLit)
-				if !ok {
-					return true
-				}
-				if _, isMap := p.TypesInfo.TypeOf(cl).Underlying().(*types.Map); !isMap {
-					return true
-				}
-				for _, el := range cl.Elts {
-					kv, ok := el.(*ast.KeyValueExpr)
-					if !ok {
-						continue
-					}
-					k := stringLit(p.TypesInfo, kv.Key)
-					if id, ok := kv.Value.(*ast.Ident); ok {
-						if fo, ok := p.TypesInfo.Uses[id].(*types.Func); ok {
-							out[k] = c.Prog.FuncValue(fo)
-						}
-					}
-				}
-				return false
-			})
+	pos = fd.Pos()
+	for _, e := range dispatchTable(p, fd) {
+		if e.Target != nil {
+			out[e.Key] = c.Prog.FuncValue(e.Target)
+		} else {
+			out[e.Key] = nil
 		}
 	}
 	return out, pos
@@ -287,36 +266,37 @@ func ruleOpaque(c *core.Ctx) {
 	}
 	ws, _ := shapeOf(c, w, streamParam(w, "Write"))
 	ws = flatten(ws)
-	ok := len(ws) == 2 && ws[0].Name == "String" && ws[0].Field == "sig" && ws[1].Name == "Bytes" && ws[1].Field == "data"
+	ok := len(ws) == 2 && ws[0].Name == "String" && ws[0].Field == sigF.Name() && ws[1].Name == "Bytes" && ws[1].Field == dataF.Name()
 	c.Check(ok, rule, "type/value.OpaqueValue.Write", w.Pos(), "String(sig) Bytes(data)", "OpaqueValue.Write does not emit its signature followed by exactly its stored bytes: "+shapeString(ws))
-	// newOpaque: the literal's fields
+	// newOpaque: what ends up in the fields of the value it returns (stored
+	// directly, or handed to a constructor that stores its parameters)
 	good := false
 	bad := ""
-	for _, b := range no.Blocks {
-		for _, in := range b.Instrs {
-			st, isSt := in.(*ssa.Store)
-			if !isSt {
-				continue
-			}
-			if isFieldOf(st.Addr, dataF) {
-				v := core.Canon(st.Val)
-				e, isE := v.(*ssa.Extract)
-				if !isE || e.Index != 0 {
-					bad = "the data stored in the opaque value is not directly what the reader returned"
-					continue
-				}
-				call, isCall := e.Tuple.(*ssa.Call)
-				if !isCall || !call.Call.IsInvoke() || call.Call.Method.Name() != "Read" {
-					bad = "the data stored in the opaque value does not come from the signature-driven reader"
-					continue
-				}
-				good = true
-			}
-			if isFieldOf(st.Addr, sigF) {
-				if _, isParam := core.Canon(st.Val).(*ssa.Parameter); !isParam {
-					bad = "the signature stored in the opaque value is not the one it was decoded with"
-				}
-			}
+	dataVals, sigVals := fieldInits(no, dataF), fieldInits(no, sigF)
+	if len(dataVals) == 0 || len(sigVals) == 0 {
+		bad = "cannot find where newOpaque fills the opaque value"
+	}
+	var readerSig ssa.Value // the signature the reader that produced the data was made from
+	for _, v := range dataVals {
+		v = core.Canon(v)
+		e, isE := v.(*ssa.Extract)
+		if !isE || e.Index != 0 {
+			bad = "the data stored in the opaque value is not directly what the reader returned"
+			continue
+		}
+		call, isCall := e.Tuple.(*ssa.Call)
+		if !isCall || !call.Call.IsInvoke() || call.Call.Method.Name() != "Read" {
+			bad = "the data stored in the opaque value does not come from the signature-driven reader"
+			continue
+		}
+		if mk, _ := core.CallResult(core.Canon(call.Call.Value)); mk != nil && len(mk.Call.Args) == 1 {
+			readerSig = core.Canon(mk.Call.Args[0])
+		}
+		good = true
+	}
+	for _, v := range sigVals {
+		if readerSig == nil || core.Canon(v) != readerSig {
+			bad = "the signature stored in the opaque value is not the one its data was read with"
 		}
 	}
 	c.Check(good && bad == "", rule, "type/value.newOpaque", no.Pos(), "stores its signature argument and exactly the bytes the reader returned", bad)
